@@ -7,7 +7,7 @@ variadic: dict name -> definition (used only when there is no exact-arity entry)
           callable arity -> rows
 """
 import itertools
-from .terms import (walk, resolve, unify, mklist, Budget, Unspecified, body_map_terms, canon)
+from .terms import (walk, resolve, unify, mklist, Budget, Unspecified, body_map_terms, canon, term_vars)
 
 
 class Cell:
@@ -54,6 +54,7 @@ class Interp:
         self.max_steps = max_steps
         self.max_depth = max_depth
         self.maxdepth_seen = 0
+        self.max_goal_size = 300
         self.findall_copy = findall_copy
         self.immediate_update = immediate_update   # second mode used only to classify C14 cases
         self.trace = []                             # (name, arity) of every call, in order (C20 argument order)
@@ -161,6 +162,9 @@ class Interp:
             name, args = goal[1], ()
         elif goal[0] == 'f':
             name, args = goal[1], goal[2]
+            # the engine copies terms as trees where this interpreter shares sub-terms: bound the TREE size of
+            # every goal, so that the implementation is never asked to do exponentially more work than R
+            resolve(goal, s, None, self.max_goal_size)
         else:
             raise Unspecified('non-callable goal')
         key = (name, len(args))
@@ -234,6 +238,10 @@ class Interp:
             res = []
             for s1 in self.call(self.add_args(args[1], (), s), s, depth + 1):
                 t = resolve(args[0], s1)
+                if term_vars(t, []):
+                    # ISO copies the variables of a non-ground instance, the engine shares them with the
+                    # caller (and which variable survives depends on binding direction): unspecified by C09
+                    self.events.add('findall-nonground-instance')
                 res.append(self.rename(t, {}) if self.findall_copy else t)
             self.events.add('findall-%s' % ('0' if not res else '1' if len(res) == 1 else 'many'))
             s2 = unify(args[2], mklist(res), s)
